@@ -206,7 +206,7 @@ CHECKS["C01"] = {
              "an optional closer (Close or cancel from another goroutine), optionally 1..3 scheduling points held (including the consumer parked inside Unmarshal while it borrows the read buffer), and up to 400 director "
              "choices (1-byte/7-byte/half/whole deliveries and accepts, grants, releases). Oracle: every received payload is self-describing (rpc, direction, sender, sequence, CRC) and must be the next "
              "one of its sender (no reorder/duplicate/corruption/foreign message); a skipped message must have a failed send; with automatic flushing a send that returned nil has its final frame inside the bytes "
-             "the transport had taken at that instant (parsed by the reference parser); on undisturbed RPCs in flush mode every successful send is received and each drain ends with io.EOF. "
+             "the transport had taken at that instant (parsed by the reference parser); on undisturbed RPCs in flush mode every successful send is received and each drain ends with io.EOF; a receiver may skip one message its encoding cannot decode (it is consumed, never handed out again); messages the sender still holds, and slices obtained from RawRecv, keep their bytes; a connection on which nobody cancelled, closed early or failed is still open at the end. "
              "Non-trivial: a multi-frame message, concurrent senders/receivers, or the consumer parked mid-unmarshal. Distinct by action trace + programs."),
     "assumptions": E3_ASSUME + ["completeness is asserted only for RPCs nobody closes, cancels or force-closes; the explicit-flush form of the guarantee (ManualFlush) only on such RPCs",
                                 "reader MaximumBufferSize is left at its default, which every generated message fits"],
